@@ -52,8 +52,16 @@ type nodeBasedBalancer struct {
 	loadRatioAlgorithm selectors.LoadRatioAlgorithm
 	quarantineNodeMap  sync.Map
 
+	// The swaps proposed in the current rebalance round, by shard
+	roundSwaps map[int64][]proposedSwap
+
 	actionCh  chan Action
 	triggerCh chan struct{}
+}
+
+type proposedSwap struct {
+	from string
+	to   string
 }
 
 func (r *nodeBasedBalancer) Action() <-chan Action {
@@ -78,6 +86,7 @@ func (r *nodeBasedBalancer) quarantineNodes() *linkedhashset.Set[string] {
 
 func (r *nodeBasedBalancer) rebalanceEnsemble() {
 	r.checkQuarantineNodes()
+	r.roundSwaps = map[int64][]proposedSwap{}
 
 	swapGroup := &sync.WaitGroup{}
 	currentStatus := r.statusResource.Load()
@@ -223,6 +232,21 @@ func (r *nodeBasedBalancer) swapShard(
 		}
 		selected.Add(candidateID)
 	}
+	// The ensemble comes from the status snapshot taken at the beginning of the round:
+	// take into account the swaps already proposed for this shard in this round
+	roundSwaps := r.roundSwaps[candidateShard.ShardID]
+	for _, swap := range roundSwaps {
+		if swap.from == fromNodeID {
+			// This replica is already being moved
+			return false, nil
+		}
+		selected.Remove(swap.from)
+		selected.Add(swap.to)
+	}
+	if len(roundSwaps) > 0 && candidates.Difference(selected).Size() == 0 {
+		// Every candidate is already in use by this shard
+		return false, nil
+	}
 	sContext.SetSelected(selected)
 
 	var targetNodeID string
@@ -244,6 +268,7 @@ func (r *nodeBasedBalancer) swapShard(
 		To:     *targetNode,
 		waiter: swapGroup,
 	}
+	r.roundSwaps[candidateShard.ShardID] = append(roundSwaps, proposedSwap{from: fromNodeID, to: targetNodeID})
 	r.Info("propose to swap the shard", slog.Int64("shard", candidateShard.ShardID), slog.Any("from", fromNode), slog.Any("to", targetNodeID))
 	loadRatios.MoveShardToNode(candidateShard, fromNodeID, targetNodeID)
 	loadRatios.ReCalculateRatios()
